@@ -84,6 +84,7 @@ def cases(rng, tier):
     for i in range(nrand // 25):
         out.append(mk_case(W.single_stage_late_user_program(rng, rng.choice(["compute", "compute", "fragment"])), "single_stage_late_user"))
         out.append(mk_case(W.pc_only_program(rng), "pc_without_bindings"))
+        out.append(mk_case(W.late_pc_user_program(rng), "late_user_after_all_stages"))
     # many functions: handles above 255 / 63 must be tracked like any other
     for nh in ((70, 300) if tier != "thorough" else (70, 130, 300, 600)):
         p = W.Program()
